@@ -653,6 +653,9 @@ def eval_pixel_case(ctx, case, st, shrink=True):
                  cj, [cls, msg], "a file whose merged image can be read")
         return stage + " raises"
     W, H, depth, nch = res["W"], res["H"], res["depth"], res["nch"]
+    if case["shape"] == "witness-black-128" and res["stored"] != [bytes([127])]:
+        ctx.disagree("the witness of flatten_uses_alpha_not_shape is not reproduced by the real code (expected the sample 127)",
+                     dict(cj, stored=[p.hex() for p in res["stored"]]))
     if not res["dirty"]:
         ctx.disagree("the structural edit did not set the flag (model: dirtyAfter)", cj)
     ok, detail = res["geometry"]
@@ -802,6 +805,17 @@ def run_pixel_cases(ctx, src, note):
     cases += [mpx.random_case(rng, nprng) for _ in range(110 if ctx.quick else 1500)]
     st = {"cnt": {}, "arith": {"samples": 0, "equal": 0, "within float32 rounding of flatten / scale": 0}, "max_excess": 0.0,
           "routes": {}, "shrunk": 0, "checked_pixels": 0}
+    # np.round / np.clip / scale / np.float32 against the model's `code` and `f32Bits`
+    reqs, exp = mpx.rounding_law_requests(rng)
+    nbad = 0
+    for rq, a, e in zip(reqs, ctx.driver().batch(reqs), exp):
+        ctx.corr_cases += 1
+        if a[0] != "ok" or a[1] != e:
+            nbad += 1
+            if nbad <= 3:
+                ctx.disagree("rounding law: NumPy and the model differ (np.round half-even / np.clip / scale / float32)",
+                             {"request": list(rq), "numpy": e, "model": list(a)})
+    ctx.hist("rounding_law_requests", f"{len(reqs)} compared, {nbad} differ")
     for case in cases:
         key = json.dumps(mpx.case_json(case), sort_keys=True)
         ctx.count(("pixdoc", hash(key)), nontrivial=len(case["recipe"]) > 1)
@@ -1062,7 +1076,7 @@ def run(ctx: core.Run):
         "nothing structural was edited), so it is checked as byte identity and not flagged.",
     ]
     if ctx.tier == "thorough":
-        ctx.recheck(["PsdVerif.Props.C17"])
+        ctx.recheck(["PsdVerif.Props.C17", "PsdVerif.Props.C17Pixels"])
 
 
 def replay(ctx, data):
